@@ -1,8 +1,10 @@
 import PcfgVerif.Drive.PQ
+import PcfgVerif.Drive.Omen
 /-! Line-protocol driver: one operation per input line, one canonical answer line each. -/
 
 structure DState where
   pq : Drive.PQ.St := {}
+  omen : Drive.Omen.St := {}
 
 def dispatch (s : DState) (line : String) : DState × String :=
   let toks := (line.splitOn " ").filter (· ≠ "")
@@ -12,6 +14,9 @@ def dispatch (s : DState) (line : String) : DState × String :=
     if cmd.startsWith "pq." then
       let (p, out) := Drive.PQ.step s.pq toks
       ({ s with pq := p }, out)
+    else if cmd.startsWith "omen." then
+      let (p, out) := Drive.Omen.step s.omen toks
+      ({ s with omen := p }, out)
     else (s, "bad-op")
 
 partial def loop (h : IO.FS.Stream) (out : IO.FS.Stream) (s : DState) : IO Unit := do
